@@ -51,6 +51,26 @@ pub fn alphabets(tier: Tier) -> Vec<(Alphabet, Limits, bool)> {
         Limits { max_depth: 64, max_states: 2_000_000, max_wall_s: if tier.thorough() { 600.0 } else { 60.0 }, threads: th },
         true,
     ));
+    // R4: IPv4 hosts served through the dual-stack IPv6 socket alone (`use_ipv4 = false`, `set_only_ipv6 = false`): totals, tallies and
+    // export lines of both families
+    v.push((
+        Alphabet {
+            name: "R4-v6-socket-serves-v4",
+            opts: WorldOpts { hashes: vec![0], families: vec![true, false], v6_socket_serves_v4: true, ..opts.clone() },
+            keys: 1,
+            kinds: vec![Kind::Leech, Kind::Seed, Kind::Stop5],
+            pids: Some(2),
+            ages: vec![1],
+            lags: vec![0],
+            numwants: vec![0],
+            scrapes: vec![],
+            clock_max: 2,
+            reloads: vec![],
+            clean: true,
+        },
+        Limits { max_depth: 64, max_states: 2_000_000, max_wall_s: if tier.thorough() { 600.0 } else { 60.0 }, threads: th },
+        true,
+    ));
     // R3: heap representation: 4 keys with own ids, id change on one key
     v.push((
         Alphabet {
